@@ -71,7 +71,6 @@ theorem propose_total {D : Table} {n : Nat} {s : St} (hs : Consistent D n s) {ci
     cases orc with
     | nil => simp at hp
     | cons o orc' =>
-      simp only []
       have hcen : s.ctrInds[cid]? = some s.ctrInds[cid] := List.getElem?_eq_getElem hcid
       have hmem : s.ctrInds[cid] ∈ (List.range n).filter (fun f => decide (s.arr.assign f = (cid : Nat))) := by
         simp only [List.mem_filter, List.mem_range, decide_eq_true_eq]
@@ -79,6 +78,11 @@ theorem propose_total {D : Table} {n : Nat} {s : St} (hs : Consistent D n s) {ci
       have hpos : 0 < ((List.range n).filter (fun f => decide (s.arr.assign f = (cid : Nat)))).length :=
         List.length_pos_of_mem hmem
       have hlt := Nat.mod_lt o hpos
+      have hne : ((List.range n).filter (fun f => decide (s.arr.assign f = (cid : Nat)))).isEmpty = false := by
+        cases hm : (List.range n).filter (fun f => decide (s.arr.assign f = (cid : Nat))) with
+        | nil => rw [hm] at hpos; simp at hpos
+        | cons _ _ => rfl
+      simp only [hne, Bool.false_eq_true, if_false]
       rw [List.getElem?_eq_getElem hlt]
       refine ⟨_, _, rfl, ?_⟩
       simp only [PropsOK]
